@@ -35,10 +35,11 @@ GreedyComplete == LET T == FoldSeq(Text, Cs, Nrm) IN HasEmb(T, Pat) <=> (Embeddi
 (* V1 reports exactly the span of its two greedy passes *)
 V1SpanTight == \A fwd \in BOOLEAN : LET sp == V1Span(FoldSeq(Text, Cs, Nrm), Pat, fwd) IN
                    (Pat # <<>> /\ sp # <<0, 0>>) => Res("v1", fwd).e = sp[2] /\ Res("v1", fwd).s = sp[1] - 1
-(* C03: the DP score is the score of an alignment that exists, and no alignment scores higher than the best one *)
-V2IsSomeAlignment == (Pat # <<>> /\ Res("v2", TRUE).s >= 0) =>
-                        \E e \in Embeddings(FoldSeq(Text, Cs, Nrm), Pat) : AlignScore(Text, Sch, e) = Res("v2", TRUE).sc
-V2NotAboveBest == (Pat # <<>> /\ Res("v2", TRUE).s >= 0) => Res("v2", TRUE).sc <= BestAlign(Text, Pat, Cs, Nrm, Sch)
+(* C03: the DP score is the score of an alignment that exists (hence it never exceeds the best existing alignment) *)
+AlignScores == LET B == BonusSeq(Text, Sch) IN
+               {EmbWalk(B, e, e[1], 1, 0, FALSE, 0, 0) : e \in Embeddings(FoldSeq(Text, Cs, Nrm), Pat)}
+V2IsSomeAlignment == (Pat # <<>> /\ Res("v2", TRUE).s >= 0) => Res("v2", TRUE).sc \in AlignScores
+V2NotAboveBest == (Pat # <<>> /\ Res("v2", TRUE).s >= 0) => Res("v2", TRUE).sc <= SetMax(AlignScores)
 V2DirSameScore == Res("v2", TRUE).sc = Res("v2", FALSE).sc
 V1NotAboveV2 == Res("v1", TRUE).sc <= Res("v2", TRUE).sc /\ Res("v1", FALSE).sc <= Res("v2", TRUE).sc
 Thm(name, ok) == ok \/ PrintT(<<"THMFAIL", ToJson([thm |-> name, t |-> Text, p |-> Pat, cs |-> Cs, norm |-> Nrm, sch |-> Sch])>>)
